@@ -1,13 +1,16 @@
 #!/bin/bash
 # usage: seed_verify.sh <seed out dir> <name> <property ids...>
+# SEED_BASE = the /repo commit the seeded change was written against (the demonstration is confirmed there; the checks
+# run against the CURRENT HEAD with the patch applied, 3-way if the context moved)
 # 1. confirms the seeded change in a scratch worktree (demo passes clean / fails patched; lib suite 84 pass + same 3 fail)
 # 2. applies it to /repo, runs ./check for the given properties, reverts /repo
 # 3. stores it under /verif/seeded/<name>/
 src=$1; name=$2; shift 2; props="$@"
 wt=/tmp/sv-$name
+base=${SEED_BASE:-a2078de}
 export CARGO_NET_OFFLINE=true CARGO_TARGET_DIR=/tmp/sv-target
 git -C /repo worktree remove --force $wt 2>/dev/null
-git -C /repo worktree add -q $wt HEAD || exit 2
+git -C /repo worktree add -q --detach $wt $base || exit 2
 demo=$(ls $src | grep -E '^demo' | head -1)
 case $demo in
   demo_test.rs|demo*.rs) mkdir -p $wt/tests; cp $src/$demo $wt/tests/seed_demo.rs; run="cargo test --offline --test seed_demo";;
@@ -31,8 +34,8 @@ echo "confirmed=$confirmed"
 unset CARGO_TARGET_DIR
 mut=/tmp/sv-repo
 git -C /repo worktree remove --force $mut 2>/dev/null
-git -C /repo worktree add -q $mut HEAD || exit 2
-git -C $mut apply $src/patch.diff || exit 2
+git -C /repo worktree add -q --detach $mut HEAD || exit 2
+git -C $mut apply $src/patch.diff 2>/dev/null || git -C $mut apply -3 $src/patch.diff || { echo "PATCH DOES NOT APPLY TO HEAD"; git -C /repo worktree remove --force $mut; exit 2; }
 results=""
 for p in $props; do
   out=$(VERIF_REPO=$mut ./check $p --tier quick 2>&1 | grep -E "^(VIOLATION|OK|KNOWN)" | tail -1)
@@ -42,9 +45,10 @@ done
 git -C /repo worktree remove --force $mut
 mkdir -p seeded/$name
 cp $src/patch.diff seeded/$name/patch.diff; cp $src/$demo seeded/$name/$demo
-python3 - "$src/meta.json" "seeded/$name/meta.json" "$results" "$props" <<'PY'
+python3 - "$src/meta.json" "seeded/$name/meta.json" "$results" "$props" "$base" <<'PY'
 import json,sys
 m=json.load(open(sys.argv[1]))
+m["base_commit"]=sys.argv[5]
 m["confirmed_by_lead"]="scratch worktree: demo passes on clean HEAD, fails with patch; cargo test --lib --offline: 84 passed; 3 failed (the 3 always-fail tests)"
 m["checks_run_against_it"]=[l for l in sys.argv[3].split("\\n") if l]
 json.dump(m,open(sys.argv[2],"w"),indent=1)
